@@ -20,7 +20,9 @@ EXTENDS ReaderAbs, Json, SequencesExt
 
 Lt(a, b) == a < b
 
-CONSTANTS GenK,        \* behaviour generation: print one of GenK explored edges (0 = none)
+CONSTANTS HostileClasses, \* C06: classes of hostile datagrams a second peer may inject at any point ({} = none)
+          HostileMatched, \* ... and whether that peer (writer 3) is matched with the reader
+          GenK,        \* behaviour generation: print one of GenK explored edges (0 = none)
           MaxSN,       \* sequence numbers 1..MaxSN
           FragSNs,     \* sequence numbers whose samples are sent as 2 fragments
           MaxSteps,    \* bound on the length of a behaviour
@@ -61,7 +63,7 @@ Init ==
   /\ latestIdx = 0
   /\ dsc = {}
   /\ steps = 0
-  /\ hist = <<>>
+  /\ hist = IF HostileClasses # {} /\ HostileMatched THEN <<[a |-> "Match", w |-> 3]>> ELSE <<>>
 
 Log(a) == /\ steps' = steps + 1
           /\ hist' = Append(hist, a)
@@ -207,6 +209,14 @@ Take(max) ==
   /\ UNCHANGED <<ab, chg, rhb, sac, asm, cache, nidx, marker>>
   /\ Log([a |-> "Take", max |-> max])
 
+(* ---- C06: a hostile datagram of class c from peer 3 ---- *)
+\* Non-interference is all the property promises: nothing the well-behaved writers and the reader
+\* agreed on changes.  (Trivial here; it is the real code that has to live up to it when this step
+\* is replayed at every reachable state.)
+Hostile(c) ==
+  /\ UNCHANGED <<absVars, implVars>>
+  /\ Log([a |-> "Hostile", w |-> 3, cls |-> c])
+
 (* ------------------------------------------------------------------ *)
 Next ==
   \/ \E w \in Writers : Match(w) \/ Unmatch(w)
@@ -218,6 +228,7 @@ Next ==
         \E set \in SUBSET (base .. (IF base + 2 > MaxSN + 1 THEN MaxSN + 1 ELSE base + 2)) :
           Gap(w, start, base, set)
   \/ \E max \in {1, 100} : Take(max)
+  \/ \E c \in HostileClasses : Hostile(c)
 
 Spec == Init /\ [][Next]_vars
 
